@@ -1,5 +1,5 @@
 import MxModel.Proofs.RegistryExact
-import MxModel.Proofs.IOSession
+import MxModel.Proofs.IOSessionInv
 /-!
 # C19 – Model registry: unique names, no model dropped
 
@@ -120,23 +120,30 @@ example : openHandles [] {} [.close 0, .new (some "A"), .close 1, .new none, .cl
 /-! ## Isolation of the models in the session-wide IOManager (`Kernels/IOSession.lean`)
 
 Several models share ONE `IOManager`; files under an absolute path are filed under the session-wide group `None`.
-`IOSession.SidDet` (a spec identity has one value and one group) holds in every state the model reaches by
-construction of the identities (`nextSid`); it is a hypothesis here, decided on the examples.  -/
+The statements are about EVERY state the session reaches (`run {} ops`, any operation list): the invariant
+`IOSession.Inv` is proved for the empty session and preserved by every operation (`Proofs/IOSessionInv.lean`). -/
 
 /-- **Closing a model leaves the others alone** (relative AND absolute paths): for every other model `m'`,
 `Model.iospecs` (with the keys of the files), every file object of its group, every session-wide file object it
 uses (identity, key, all specs) and every reference are what they were.
 Partial: `AbsPrivate st m m'` - no session-wide file object serves both models (the recorded finding
 C18-absolute-io-shared: files under an absolute path are shared by the models of a session). -/
-theorem close_leaves_other_models_specs_partial (st : IOSession.St) (m m' : Nat) (hne : m ≠ m')
-    (hdet : IOSession.SidDet st) (hpriv : IOSession.AbsPrivate st m m') :
+theorem close_leaves_other_models_specs_partial (ops : List IOSession.Op) (m m' : Nat) (hne : m ≠ m')
+    (hpriv : IOSession.AbsPrivate (IOSession.run {} ops) m m') :
+    let st := IOSession.run {} ops
     IOSession.specsOf (IOSession.closeModel st m) m' = IOSession.specsOf st m' ∧
     (IOSession.closeModel st m).ios.filter (IOSession.inGroup (some m')) =
       st.ios.filter (IOSession.inGroup (some m')) ∧
     (∀ io ∈ st.ios, io.group = none → (∃ s ∈ io.specs, IOSession.boundIn st.refs m' s.val = true) →
       io ∈ (IOSession.closeModel st m).ios) ∧
     (IOSession.closeModel st m).refs = st.refs :=
-  IOSession.closeModel_frame st m m' hne hdet hpriv
+  IOSession.closeModel_frame _ m m' hne (IOSession.reachable_inv ops).det hpriv
+
+/-- the session invariant (`IOSession.Inv`: identities handed out by counters, one identity - one value - one
+group, no file object without a spec, references of created models only, group `None` = absolute path) holds after
+every history: `Inv {}` and `Inv st → Inv (step st op)` for every operation, by induction over the operation list -/
+theorem session_inv_reachable (ops : List IOSession.Op) : IOSession.Inv (IOSession.run {} ops) :=
+  IOSession.reachable_inv ops
 
 example : IOSession.SidDet IOSession.demo ∧ IOSession.AbsPrivate IOSession.demo 1 0 ∧
     IOSession.specsOf IOSession.demo 0 ≠ [] := by decide +kernel
@@ -161,13 +168,15 @@ example : IOSession.specsOf (IOSession.closeModelMutG IOSession.demo 1) 0 ≠ IO
 /-- **Closing a model releases what is its own**: no file object of its group remains, and no spec of a
 session-wide file is referenced by it any more.
 Partial: one spec per value in the model's view (`new_pandas` twice for one object leaves a second spec: trigger
-of C18), every spec filed under the model is referenced by it, no file object without specs. -/
-theorem close_releases_own_partial (st : IOSession.St) (m : Nat) (hopen : st.opened.contains m = true)
-    (hone : IOSession.OneSpecPerValue st m) (href : IOSession.GroupReferenced st m)
-    (hne : IOSession.NoEmptyIo st) :
+of C18), every spec filed under the model is referenced by it. -/
+theorem close_releases_own_partial (ops : List IOSession.Op) (m : Nat)
+    (hopen : (IOSession.run {} ops).opened.contains m = true)
+    (hone : IOSession.OneSpecPerValue (IOSession.run {} ops) m)
+    (href : IOSession.GroupReferenced (IOSession.run {} ops) m) :
+    let st := IOSession.run {} ops
     ∀ io ∈ (IOSession.closeModel st m).ios, io.group ≠ some m ∧
       (io.group = none → ∀ s ∈ io.specs, IOSession.boundIn (IOSession.closeModel st m).refs m s.val = false) :=
-  IOSession.closeModel_releases st m hopen hone href hne
+  IOSession.closeModel_releases _ m hopen hone href (IOSession.reachable_inv ops).nonempty
 
 example : IOSession.demo.opened.contains 1 = true ∧ IOSession.OneSpecPerValue IOSession.demo 1 ∧
     IOSession.GroupReferenced IOSession.demo 1 ∧ IOSession.NoEmptyIo IOSession.demo ∧
@@ -179,5 +188,17 @@ example :
       .newSpec 0 "S.b" ⟨false, "b.csv"⟩ false none 1]
     ¬ IOSession.OneSpecPerValue st 0 ∧ (IOSession.closeModel st 0).ios.any (fun io => io.group == some 0) = true := by
   decide +kernel
+
+/-- the same for a whole session: when no session-wide file object serves two models (`AbsPrivateAll`, a decidable
+predicate on the state reached), closing ANY model leaves `iospecs` of EVERY other model as they were -/
+theorem close_leaves_other_models_specs_private_session (ops : List IOSession.Op)
+    (hall : IOSession.AbsPrivateAll (IOSession.run {} ops)) (m m' : Nat) (hne : m ≠ m') :
+    IOSession.specsOf (IOSession.closeModel (IOSession.run {} ops) m) m' =
+      IOSession.specsOf (IOSession.run {} ops) m' :=
+  (IOSession.closeModel_frame _ m m' hne (IOSession.reachable_inv ops).det
+    (IOSession.absPrivate_of_all (IOSession.reachable_inv ops) hall m m' hne)).1
+
+example : IOSession.AbsPrivateAll IOSession.demo ∧ ¬ IOSession.AbsPrivateAll IOSession.sharedValue ∧
+    ¬ IOSession.AbsPrivateAll IOSession.sharedPath := by decide +kernel
 
 end MxModel.C19
